@@ -13,6 +13,7 @@ pub mod css;
 pub mod gen;
 pub mod report;
 pub mod rs;
+pub mod sched;
 pub mod val;
 pub mod worker;
 
